@@ -33,7 +33,18 @@ def replay (haves : List Nat) : St → List (Nat × Req × Beh) → Option St
     | none => none
     | some i => replay haves (step s i (outcome (haves.getD p 0) r b)) rest
 
+/-- two calls on one client: the second call's only capable peer is healthy; the first call's history must not starve it -/
+def evalTwoCalls (ins outs : List String) : Verdict :=
+  match kvNat? ins "from", kvNat? ins "to", kv? outs "res", kv? outs "err" with
+  | some fromH, some to, some res, some err =>
+    let expected := List.range' (fromH + 1) (to - (fromH + 1))
+    if err == "CRASH" then .prop "c05_no_crash" "twocalls" else
+    if err != "nil" then .prop "c18_complete" s!"second call: res={res} err={err}" else
+    if natList? res == some expected then .ok "twocalls" else .prop "c05_exact_heights" s!"res={res}"
+  | _, _, _, _ => .bad "twocalls fields"
+
 def evalSession (prop : String) (ins outs : List String) : Verdict :=
+  if kv? ins "kind" == some "twocalls" then evalTwoCalls ins outs else
   match kvNat? ins "from", kvNat? ins "to", kvNat? ins "chunk", kv? ins "peers", kv? outs "res", kv? outs "err", kv? outs "trace" with
   | some fromH, some to, some chunk, some peersS, some res, some err, some traceS =>
     let haves := (peersS.splitOn ",").map fun p => ((p.splitOn "|").headD "0").toNat?.getD 0
